@@ -311,12 +311,14 @@ def run_job(job, base: Path):
 
 def keys_main(cases_file, out_file):
     cases = json.load(open(cases_file))
-    keys = []
-    for ty, raw in cases:
+    keys = [None] * len(cases)
+    # the fresh interpreter builds the tasks in the opposite order: a key must not depend on what was built before
+    for i in reversed(range(len(cases))):
+        ty, raw = cases[i]
         try:
-            keys.append(_types()[ty](f1=to_py(raw)).cache_key)
+            keys[i] = _types()[ty](f1=to_py(raw)).cache_key
         except BaseException as ex:   # noqa
-            keys.append(f'error:{type(ex).__name__}')
+            keys[i] = f'error:{type(ex).__name__}'
     json.dump(keys, open(out_file, 'w'))
 
 
